@@ -313,6 +313,18 @@
 #define IT_PASSED_QP(it_, i_) ((bg_size)(i_) == (bg_size)G_Q ? (it_).p.nP : (bg_size)0)
 /* x counted once, or twice on the diagonal when self-loops count twice */
 #define U_TWICE(x, twice) ((G_P == G_Q && (twice)) ? (x) + (x) : (x))
+/* ---- unordered_set<VertexIndex> S and a walk over it */
+#define S_HAS_P(s) ((s).hasP)
+#define S_HAS_Q(s) (G_P == G_Q ? (s).hasP : (s).hasQ)
+#define S_IN_RANGE(s, n) ((!(s).hasP || (bg_size)G_P < (n)) && (!(s).hasQ || (bg_size)G_Q < (n)) && ((s).restCount == 0 || (s).restBound <= (n)))
+#define SIT_OK(it, s)                                                         \
+  ((it).walking && (!(it).remP || (s).hasP) && (!(it).remQ || (s).hasQ) && (it).remRest <= (s).restCount && \
+   (it).restBound == (s).restBound &&                                         \
+   (BG_USET_LEFT(it) == 0 || ((!BG_IS_P((it).cur) || (it).remP) && (!BG_IS_Q((it).cur) || (it).remQ) && \
+                              (!BG_IS_O((it).cur) || ((it).remRest > 0 && (bg_size)(it).cur < (it).restBound)))))
+/* the observation point has been passed by the walk */
+#define SIT_DONE_P(it, s) ((s).hasP && !(it).remP)
+#define SIT_DONE_Q(it, s) (G_P == G_Q ? ((s).hasP && !(it).remP) : ((s).hasQ && !(it).remQ))
 /* observed entries of vector<size_t> / matrix results */
 #define V_AT_P(v) ((v).vP)
 #define V_AT_Q(v) (G_P == G_Q ? (v).vP : (v).vQ)
